@@ -12,7 +12,7 @@ import (
 func init() {
 	register(&propDef{
 		id: "C13", level: "other", run: runC13,
-		explanation: "Decided: (R1) the dispatch of the record-header byte is evaluated from the SSA guards for all 256 values, in evaluation order, and compared with the FIT layout (1xxxxxxx compressed-timestamp data, 01xxxxxx definition, 00xxxxxx data); the local-type extraction is hdr&0x0F for normal headers and (hdr&0x60)>>5 for compressed ones and stays below the slot-array length for all 256 values; the two header tests of parseFileIdMsg are held against the same classes (a guard admitting bytes of another class, or all 256 bytes, is reported). (R2) slot discipline: the only stores to decoder.defmsgs are defmsgs[dm.localMsgType] = dm with dm the freshly parsed definition on its error-free edge; localMsgType is written once as hdr & 0x0F; the only load indexes with the extracted local type and is nil-checked before any use. (R3) independence: every definition is a fresh allocation whose field lists are fresh makes, and its byte order is set from the architecture byte by a two-constant switch (0 -> little endian, 1 -> big endian) with an error default. NOT decided: decoded values of interleavings. (R3-definition-immutable) outside the definition parser no member of a defmsg, nor the list loaded from it, is assigned, boxed or handed to a function.",
+		explanation: "Decided: (R1) the dispatch of the record-header byte is evaluated from the SSA guards for all 256 values, in evaluation order, and compared with the FIT layout (1xxxxxxx compressed-timestamp data, 01xxxxxx definition, 00xxxxxx data); the local-type extraction is hdr&0x0F for normal headers and (hdr&0x60)>>5 for compressed ones and stays below the slot-array length for all 256 values; the two header tests of parseFileIdMsg are held against the same classes (a guard admitting bytes of another class, or all 256 bytes, is reported). (R2) slot discipline: the only stores to decoder.defmsgs are defmsgs[dm.localMsgType] = dm with dm the freshly parsed definition on its error-free edge; localMsgType is written once as hdr & 0x0F; the only load indexes with the extracted local type and is nil-checked before any use. (R3) independence: every definition is a fresh allocation whose field lists are fresh makes, and its byte order is set from the architecture byte by a two-constant switch (0 -> little endian, 1 -> big endian) with an error default. NOT decided: decoded values of interleavings. (R3-definition-immutable) outside the definition parser no member of a defmsg, nor the list loaded from it, is assigned, boxed or handed to a function. (R2, definition-used) the definition handed to the field parser is the value loaded from the record's slot itself.",
 		trusted:     []string{"guard evaluation over the 256 byte values (checker/c13.go transfer functions: & const, >> const, ==, !=, !)", "go/ssa dominator tree"},
 	})
 }
@@ -249,6 +249,7 @@ func runC13(c *Ctx, r *Report) {
 	c13FileIDGuards(c, r)
 	// ---- R2 ----------------------------------------------------------------------------------
 	c13Slots(c, r)
+	c13DefinitionUsed(c, r)
 	// ---- R3 ----------------------------------------------------------------------------------
 	c13Fresh(c, r)
 	byteOrderDiscipline(c, r, "C13-R3-byte-order-use")
@@ -979,4 +980,36 @@ func mutatingUse(c *Ctx, root ssa.Value) string {
 	}
 	visit(root, true, 0)
 	return bad
+}
+
+// c13DefinitionUsed (C13-R2-slot-discipline/definition-used, after wave-11 seed C13-P): the record is
+// interpreted with the definition stored in its slot — the value loaded from defmsgs[local type] is
+// the very value handed to the field parser, not a copy or a derivative of it.
+func c13DefinitionUsed(c *Ctx, r *Report) {
+	fn := c.ssaFn(c.fn(c.fit, "decoder.parseDataMessage"))
+	if fn == nil {
+		r.fail("C13-R2-slot-discipline", "parseDataMessage/definition-used", "", "parseDataMessage not found")
+		return
+	}
+	n := 0
+	for _, ci := range allCalls(fn) {
+		f := ci.Common().StaticCallee()
+		if f == nil || f.Name() != "parseDataFields" {
+			continue
+		}
+		n++
+		arg := ci.Common().Args[1]
+		ok := false
+		why := "the definition handed to parseDataFields is " + stripAddrs(pathOf(arg))
+		if ld, isLd := arg.(*ssa.UnOp); isLd && ld.Op == token.MUL {
+			if ia, isIA := ld.X.(*ssa.IndexAddr); isIA {
+				if fa, isFA := ia.X.(*ssa.FieldAddr); isFA && isFieldOf(fa, "decoder", "defmsgs") {
+					ok = true
+					why = "parseDataFields gets the slot's own definition"
+				}
+			}
+		}
+		r.check(ok, "C13-R2-slot-discipline", fmt.Sprintf("parseDataMessage/definition-used#%d", n), c.pos(ci.Pos()), why, why+", not the value stored in the record's slot: the record is not interpreted with the most recent definition of its local type as it was defined")
+	}
+	r.need("parseDataFields calls in parseDataMessage", n, 1)
 }
